@@ -835,8 +835,12 @@ __yd_diff(dt_yd_t d1, dt_yd_t d2)
 	}
 	/* add carry */
 	if (tgtd < 0) {
+		/* the span now starts at D1's anniversary in the year before D2's,
+		 * it is one day longer if it contains a leap day, either the one
+		 * of D2's year or, for anniversaries in Jan/Feb, last year's */
 		tgty--;
-		tgtd += 365 + ((__leapp(d2.y)) && d2.d >= 60);
+		tgtd += 365 + ((__leapp(d2.y) && d2.d >= 60) ||
+			       (d1.d < 60 && __leapp(d2.y - 1)));
 	}
 
 	/* fill in the results */
